@@ -97,6 +97,9 @@ func (f *failingRT) RoundTrip(r *http.Request) (*http.Response, error) {
 	return f.base.RoundTrip(r)
 }
 
+// preDial, when set, sees the session after its proxy exists and before the client dials
+var preDial func(s *sess)
+
 func newSess(transports []string, scfg eio.ServerConfig, mode dialMode, usePx bool, upTimeout time.Duration) (*sess, error) {
 	s := &sess{gotUp: map[string]int{}, gotDn: map[string]int{}, upDone: make(chan string, 2)}
 	socks := make(chan eio.ServerSocket, 2)
@@ -104,7 +107,11 @@ func newSess(transports []string, scfg eio.ServerConfig, mode dialMode, usePx bo
 	if scfg.PingInterval == 0 {
 		scfg.PingInterval, scfg.PingTimeout = 20*time.Second, 20*time.Second
 	}
-	if upTimeout > 0 {
+	clientOnly := upTimeout < 0 // a negative value shortens the client's upgrade time-out only
+	if clientOnly {
+		upTimeout = -upTimeout
+	}
+	if upTimeout > 0 && !clientOnly {
 		scfg.UpgradeTimeout = upTimeout
 	}
 	s.srv = eio.NewServer(func(ss eio.ServerSocket) *eio.Callbacks {
@@ -134,6 +141,9 @@ func newSess(transports []string, scfg eio.ServerConfig, mode dialMode, usePx bo
 		}
 		s.px = px
 		url = px.URL()
+		if preDial != nil {
+			preDial(s)
+		}
 	}
 	ccfg := &eio.ClientConfig{Transports: transports, UpgradeDone: func(name string) { s.upDone <- name }}
 	if upTimeout > 0 {
@@ -284,13 +294,20 @@ func (e *env) judge(id int, s *sess, up, dn int64, expectFinal string, repro any
 func (e *env) upgradeOK(rng *rand.Rand, gated string) {
 	id := e.begin("upgrade-"+gated, "polling", "websocket", false, false, 0, 0, 0)
 	ctl := gates.New()
+	// "client-slow": the probe was answered in time, the swap itself comes later than the upgrade time-out
+	// (a request in flight can delay it that long): the upgrade must still complete, nothing is lost
+	slow := gated == "client-slow"
+	upTO := time.Duration(0)
+	if slow {
+		gated, upTO = "client", -time.Second // (the client's time-out only; one second is the shortest the configuration accepts)
+	}
 	if gated != "none" {
 		want := map[string]string{"server": "eio.s.upgrade.beforeSwap", "client": "eio.c.upgrade.beforeSwap"}[gated]
 		ctl.HoldIf(func(pt string, k any) bool { return pt == want })
 		ctl.Install()
 		defer gates.Uninstall()
 	}
-	s, err := newSess([]string{"polling", "websocket"}, eio.ServerConfig{}, dialOK, false, 0)
+	s, err := newSess([]string{"polling", "websocket"}, eio.ServerConfig{}, dialOK, false, upTO)
 	if err != nil {
 		e.res.Inconclusive("rig", err.Error(), id)
 		e.end()
@@ -301,6 +318,9 @@ func (e *env) upgradeOK(rng *rand.Rand, gated string) {
 	up, dn, wg := traffic(s, rng, stop, 200*time.Microsecond)
 	if gated != "none" {
 		if wt := ctl.WaitFor(func(*gates.Waiter) bool { return true }, 4*time.Second); wt != nil {
+			if slow {
+				time.Sleep(2 * time.Second)
+			}
 			// a burst in both directions exactly while one side stands before its swap
 			for i := 0; i < 5; i++ {
 				s.cs.Send(msg("u", int(atomic.AddInt64(up, 1)), i%2 == 0))
@@ -386,6 +406,18 @@ func (e *env) dead(tr []string, mode int32, when string, pi, pt time.Duration) {
 	const slack = 700 * time.Millisecond
 	first := tr[0]
 	id := e.begin(fmt.Sprintf("dead-%s-%d-%s", strings.Join(tr, "+"), mode, when), first, first, true, true, pi, pt, slack)
+	// "upgrade" on an upgrading session: the link goes silent exactly when the client's websocket handshake leaves
+	// (the proxy swallows it and everything after it): the upgrade stays pending for ever
+	var holed int32
+	if len(tr) > 1 && when == "upgrade" {
+		preDial = func(s *sess) {
+			s.px.HoleOnWebsocketHandshake(mode, func() {
+				vtrace.Emit("proxy.blackhole", "t", vtrace.NowUS(), "mode", int(mode))
+				atomic.StoreInt32(&holed, 1)
+			})
+		}
+		defer func() { preDial = nil }()
+	}
 	s, err := newSess(tr, eio.ServerConfig{PingInterval: pi, PingTimeout: pt}, dialOK, true, 0)
 	if err != nil {
 		e.res.Inconclusive("rig", err.Error(), id)
@@ -393,7 +425,7 @@ func (e *env) dead(tr []string, mode int32, when string, pi, pt time.Duration) {
 		return
 	}
 	defer s.close()
-	if len(tr) > 1 {
+	if len(tr) > 1 && when != "upgrade" {
 		// an upgraded session, on a link with some latency (a PONG takes longer than the server needs to start waiting for it)
 		select {
 		case <-s.upDone:
@@ -415,10 +447,16 @@ func (e *env) dead(tr []string, mode int32, when string, pi, pt time.Duration) {
 	case "early":
 		time.Sleep(pi / 3)
 	case "upgrade":
-		time.Sleep(3 * time.Millisecond)
+		if len(tr) > 1 {
+			rig.WaitUntil(3*time.Second, func() bool { return atomic.LoadInt32(&holed) == 1 })
+		} else {
+			time.Sleep(3 * time.Millisecond)
+		}
 	}
-	s.px.Blackhole(mode)
-	vtrace.Emit("proxy.blackhole", "t", vtrace.NowUS(), "mode", int(mode))
+	if atomic.LoadInt32(&holed) == 0 {
+		s.px.Blackhole(mode)
+		vtrace.Emit("proxy.blackhole", "t", vtrace.NowUS(), "mode", int(mode))
+	}
 	// one-way holes are noticed by the second side up to one interval later
 	limit := 2*pi + pt + slack + 500*time.Millisecond
 	rig.WaitUntil(limit, func() bool { s.mu.Lock(); defer s.mu.Unlock(); return s.sClose != "" && s.cClose != "" })
@@ -526,6 +564,7 @@ func TestC14(t *testing.T) {
 		{[]string{"polling"}, 1, "after-pong"}, {[]string{"polling"}, 1, "early"},
 		{[]string{"websocket"}, 2, "after-pong"}, {[]string{"websocket"}, 3, "early"},
 		{[]string{"polling", "websocket"}, 1, "after-pong"}, // an upgraded session
+		{[]string{"polling", "websocket"}, 1, "upgrade"},    // the link goes silent while the upgrade is pending
 	}
 	if vres.Tier() == "thorough" {
 		for _, tr := range [][]string{{"websocket"}, {"polling"}, {"polling", "websocket"}} {
@@ -573,7 +612,11 @@ func TestC07(t *testing.T) {
 	e := &env{res: res, w: w}
 	rng := rand.New(rand.NewSource(vres.Seed()))
 	for i := 0; i < vres.Pick(12, 300); i++ {
-		e.upgradeOK(rng, []string{"none", "server", "client"}[i%3])
+		k := i % 4
+		if k == 3 && i > 24 {
+			k = i % 3 // (the slow swap costs two seconds each: a few are enough)
+		}
+		e.upgradeOK(rng, []string{"none", "server", "client", "client-slow"}[k])
 	}
 	e.upgradeFail(rng, dialRefuse, "refused")
 	e.upgradeFail(rng, dialStall, "stalled")
